@@ -122,7 +122,7 @@ def jsonable(o):
     return repr(o)
 
 
-def fork_map(func, items, procs=None, chunk=1):
+def fork_map(func, items, procs=None, chunk=1, on_death=None, always_fork=False):
     """Deterministic parallel map over forked children (results in input order).
 
     Own implementation instead of multiprocessing.Pool so that it can be nested
@@ -134,8 +134,9 @@ def fork_map(func, items, procs=None, chunk=1):
     import traceback
     items = list(items)
     procs = min(procs or NCPU, max(1, -(-len(items) // chunk)))
-    if procs <= 1 or os.environ.get('DV_SERIAL'):
+    if (procs <= 1 and not always_fork) or (os.environ.get('DV_SERIAL') and not always_fork):
         return [func(i) for i in items]
+    procs = max(1, procs)
     scratch_root()                       # children must share the parent's root
     chunks = [items[i:i + chunk] for i in range(0, len(items), chunk)]
     results = [None] * len(chunks)
@@ -178,6 +179,10 @@ def fork_map(func, items, procs=None, chunk=1):
             del running[fd]
             _, status = os.waitpid(pid, 0)
             if os.WIFSIGNALED(status) or not buf:
+                if on_death is not None:
+                    # the code under test killed the interpreter: let the caller decide (usually: a violation)
+                    results[idx] = [on_death(x, status) for x in chunks[idx]]
+                    continue
                 raise RuntimeError(f'worker for chunk {idx} died (status {status})')
             kind, val = pickle.loads(bytes(buf))
             if kind == 'err':
